@@ -22,7 +22,8 @@ ASSUMPTIONS = [
     "data vectors are concrete NumPy arrays (all five backend dtypes); struct/slices/hfs/mfs/trans symbolic or enumerated",
     "numpy.save/load, h5py and pickle are external (not modelled)",
 ]
-NOT_DECIDED = ["MPS/MPO, PEPS and environment containers, numpy save/load and HDF5 paths: not brought under contract in this round",
+NOT_DECIDED = ["environment containers (EnvCTM, EnvBP, ...); numpy save/load and HDF5 files: only the BOUNDED stand-in (files_bounded: real files in a scratch "
+               "directory, enumerated objects) -- not a proof",
                "linearity / norm preservation of the vector<->tensor map against a supplied meta"]
 
 DTYPES = ('float64', 'complex128', 'float32', 'complex64', 'bool')
@@ -391,6 +392,27 @@ def h_meta_vector(V, sym, case, level):
         legs = {k: b.get_legs(k) for k in range(3)}
         arrays_equal(V, f'{name}:vector-read-through-meta-is-the-tensor', dense(V, c, legs), dense(V, b, legs))
         V.check(f'{name}:vector-has-the-size-the-meta-announces', len(vec) == ref.size)
+    # the META carries a pending permutation (taken from a lazily transposed tensor) and the tensor another one: the vector, read through
+    # the meta, must be the tensor -- or the pair is refused; a silently different tensor is the one thing that must not happen
+    from yastn import YastnError
+    x = symbolic_tensor(V, 'x', sym, [l0, l0, l1])
+    for name, (mref, t) in {'meta-lazy-swap/tensor-plain': (V.call(base.transpose, (1, 0, 2)), x),
+                            'meta-lazy-swap/tensor-lazy-swap': (V.call(base.transpose, (1, 0, 2)), V.call(V.call(x.transpose, (1, 0, 2)).consume_transpose).transpose((1, 0, 2))),
+                            'meta-plain/tensor-lazy-swap-of-materialised': (base, V.call(V.call(x.transpose, (1, 0, 2)).consume_transpose).transpose((1, 0, 2)))}.items():
+        _, meta = V.call(split_data_and_meta, V.call(mref.to_dict, level=level), squeeze=True)
+        out = V.outcome(t.to_dict, level=level, meta=meta)
+        if out.exc is not None:
+            V.check(f'{name}:refused-only-by-YastnError', isinstance(out.exc, YastnError))
+            continue
+        vec, _ = V.call(split_data_and_meta, out.value, squeeze=True)
+        c = V.call(Tensor.from_dict, V.call(combine_data_and_meta, vec, meta))
+        legs = {k: t.get_legs(k) for k in range(3)}
+        arrays_equal(V, f'{name}:accepted-implies-vector-read-through-meta-is-the-tensor', dense(V, c, legs), dense(V, t, legs))
+
+
+import contracts.files_bounded as FB
+from contracts.files_bounded import h_tensor_files, h_mps_files
+BOUNDED_HARNESSES = {'h_tensor_files', 'h_mps_files'}
 
 
 def container_units(tier):
@@ -427,7 +449,7 @@ def container_units(tier):
 
 
 def units(tier):
-    U = container_units(tier)
+    U = container_units(tier) + FB.units(tier)
     th = tier == 'thorough'
     syms = ALL_SYMS
     for sym in syms:
